@@ -11,48 +11,64 @@ let act_of k c =
   | ":ab" -> Some (AReinstall (nat_tok (next c)))
   | _ -> None
 let act c = let k = next c in match act_of k c with Some a -> a | None -> raise (Bad ("action " ^ k))
-let xstmt c =
+let ystmt c =
   match next c with
-  | ":set" -> let l = nat_tok (next c) in XS (SSet (l, n_tok (next c)))
-  | ":wr" -> let l = nat_tok (next c) in XS (SWrite (l, n_tok (next c)))
-  | ":fail" | ":failc" | ":thr" | ":thrstd" -> XS SAbort
-  | k -> (match act_of k c with Some a -> XA a | None -> raise (Bad ("statement " ^ k)))
-let xtest c =
-  let a = counted c xstmt in let b = counted c xstmt in let d = counted c xstmt in
-  { x_setup = a; x_body = b; x_teardown = d }
+  | ":set" -> let l = nat_tok (next c) in YX (XS (SSet (l, n_tok (next c))))
+  | ":wr" -> let l = nat_tok (next c) in YX (XS (SWrite (l, n_tok (next c))))
+  | ":fail" | ":failc" -> YX (XS SAbort)
+  | ":thr" -> YThrow false
+  | ":thrstd" -> YThrow true
+  | k -> (match act_of k c with Some a -> YX (XA a) | None -> raise (Bad ("statement " ^ k)))
+let ytest c =
+  let a = counted c ystmt in let b = counted c ystmt in let d = counted c ystmt in
+  { y_setup = a; y_body = b; y_teardown = d }
+let flag c = int_tok (next c) <> 0
+(* one token-level op -> process-level ops.  The old `:runner <rep>` is the runner with -e iff a scripted test throws and -r<rep>,
+   followed by UtestShell::setRethrowExceptions(false) -- which is what the harness does for it *)
 let op c =
   match next c with
-  | ":inst" -> let n = n_tok (next c) in OInstall (n, kind_tok (next c))
-  | ":act" -> let n = n_tok (next c) in let post = int_tok (next c) <> 0 in OActor (n, post, counted c act)
-  | ":en" -> OEnable (nat_tok (next c))
-  | ":dis" -> ODisable (nat_tok (next c))
-  | ":rm" -> ORemove (n_tok (next c))
-  | ":reset" -> OReset
-  | ":reinst" -> OReinstall (nat_tok (next c))
-  | ":test" -> OTest (xtest c)
-  | ":run" -> ORun (counted c xtest)
-  | ":runner" -> let rep = nat_tok (next c) in ORunner (rep, counted c xtest)
+  | ":inst" -> let n = n_tok (next c) in [PReg (OInstall (n, kind_tok (next c)))]
+  | ":act" -> let n = n_tok (next c) in let post = int_tok (next c) <> 0 in [PReg (OActor (n, post, counted c act))]
+  | ":en" -> [PReg (OEnable (nat_tok (next c)))]
+  | ":dis" -> [PReg (ODisable (nat_tok (next c)))]
+  | ":rm" -> [PReg (ORemove (n_tok (next c)))]
+  | ":reset" -> [PReg OReset]
+  | ":reinst" -> [PReg (OReinstall (nat_tok (next c)))]
+  | ":test" -> [PTest (ytest c)]
+  | ":run" -> [PRun (counted c ytest)]
+  | ":runner" ->
+      let rep = nat_tok (next c) in let ts = counted c ytest in
+      [PRunner ({ cl_e = List.exists has_throw ts; cl_f = false; cl_p = false; cl_v = nat_tok "0"; cl_c = false; cl_rep = rep }, ts);
+       PRethrow false]
+  | ":runnerx" ->
+      let e = flag c in let f = flag c in let p = flag c in let v = nat_tok (next c) in let cc = flag c in
+      let rep = nat_tok (next c) in let ts = counted c ytest in
+      [PRunner ({ cl_e = e; cl_f = f; cl_p = p; cl_v = v; cl_c = cc; cl_rep = rep }, ts)]
+  | ":rethrow" -> [PRethrow (flag c)]
+  | ":crashonfail" -> [PCrashOnFail (flag c)]
   | t -> raise (Bad ("op " ^ t))
-let scenario ts = let c = { rest = ts } in let rec go acc = if at_end c then List.rev acc else go (op c :: acc) in go []
+let scenario ts = let c = { rest = ts } in let rec go acc = if at_end c then List.concat (List.rev acc) else go (op c :: acc) in go []
 let pitem = function
-  | ITest (f, pre, post, pool) ->
+  | PI (ITest (f, pre, post, pool)) ->
       String.concat " " ([":t"; pbool f; string_of_int_hex (List.length pre)] @ List.map pnat pre
                          @ [string_of_int_hex (List.length post)] @ List.map pnat post @ List.map pn pool)
-  | IChain ids -> String.concat " " ([":c"; string_of_int_hex (List.length ids)] @ List.map pnat ids)
+  | PI (IChain ids) -> String.concat " " ([":c"; string_of_int_hex (List.length ids)] @ List.map pnat ids)
+  | PEscaped -> ":x"
 let run_line ts =
   let s = scenario ts in
-  if not (valid s) then raise (Bad "scenario is not valid (UT_PTR_SET without a pointer plugin that stays, an acting plugin named by another action, a plugin object installed again while it is in the chain, location/value out of range, ...)")
-  else match run s with [] -> ":none" | l -> String.concat " " (List.map pitem l)
+  if not (pvalid s) then raise (Bad "scenario is not valid (UT_PTR_SET without a pointer plugin that stays, an acting plugin named by another action, a plugin object installed again while it is in the chain, location/value out of range, a throwing test where exceptions are rethrown, registry actions in a session that uses -p, ...)")
+  else match prun s with [] -> ":none" | l -> String.concat " " (List.map pitem l)
 let item c =
   match next c with
   | ":t" -> let f = bool_tok (next c) in let pre = counted c (fun c -> nat_tok (next c)) in
             let post = counted c (fun c -> nat_tok (next c)) in
-            let pool = many c (int_of_nat pool_size) (fun c -> n_tok (next c)) in ITest (f, pre, post, pool)
-  | ":c" -> IChain (counted c (fun c -> nat_tok (next c)))
+            let pool = many c (int_of_nat pool_size) (fun c -> n_tok (next c)) in PI (ITest (f, pre, post, pool))
+  | ":c" -> PI (IChain (counted c (fun c -> nat_tok (next c))))
+  | ":x" -> PEscaped
   | t -> raise (Bad ("item " ^ t))
 let spec_line ts os =
   let s = scenario ts in
-  if not (valid s) then true (* not a scenario the property speaks about: not judged *) else
+  if not (pvalid s) then true (* not a scenario the property speaks about: not judged *) else
   let c = { rest = (if os = [":none"] then [] else os) } in
   let rec go acc = if at_end c then List.rev acc else go (item c :: acc) in
-  spec s (go [])
+  pspec s (go [])
